@@ -350,3 +350,167 @@ class SignedLt(_SignedCmp):
 @register
 class SignedGt(_SignedCmp):
     module, qualname, props, OP = 'pyrtl.corecircuits', 'signed_gt', ('C06',), '>'
+
+
+# ------------------------------------------------------------------------------ coercion helpers (C06)
+@register
+class AsWires(WireContract):
+    """as_wires(val, bitwidth, truncating): a wire is returned unchanged when no bitwidth is asked
+    for or it already has it, zero-extended when shorter, truncated to the low bits when longer and
+    truncating; an int becomes a constant of the requested / minimal width."""
+    module, qualname, props = 'pyrtl.corecircuits', 'as_wires', ('C06',)
+    inline_at_calls = True       # may return its argument itself: callers execute the real body
+
+    def cases(self):
+        return ['wire:none', 'wire:bw:T', 'wire:bw:F', 'int:none', 'int:bw']
+
+    def setup(self, I, case):
+        parts = case.split(':')
+        trunc = parts[-1] != 'F'
+        bw = I.st.fresh_int('bitwidth') if 'bw' in parts else None
+        if bw is not None:
+            I.st.assume(bw.t >= 1)
+        if parts[0] == 'wire':
+            v = W.input_wire(I, 'v')
+            ns = NS(kind='wire', vv=W.den_of(v), wv=W.bw_of(v))
+        else:
+            v = I.st.fresh_int('k')
+            ns = NS(kind='int', vv=v.t)
+        ns.args, ns.bw, ns.trunc, ns.v = [v, None if bw is None else bw, trunc], None if bw is None else bw.t, trunc, v
+        return ns
+
+    def raises(self, ns):
+        if ns.kind == 'int':
+            if ns.bw is None:
+                return [('PyrtlError', ns.vv < 0)]
+            # Const(k, bitwidth): non-negative values must fit; negative ones are stored in two's complement
+            return [('PyrtlError', H.Or(ns.vv >= H.pow2(ns.bw), ns.vv < -H.pow2(ns.bw - 1)))]
+        return [('PyrtlError', False)]
+
+    def post(self, ns):
+        import z3
+        if ns.kind == 'int':
+            if ns.bw is None:
+                return _shape(ns, H.If(ns.vv == 0, 1, H.bitlen(ns.vv)), ns.vv)
+            return _shape(ns, ns.bw, H.mod(ns.vv, H.pow2(ns.bw)))
+        if ns.bw is None:
+            return [('the wire itself', z3.BoolVal(ns.result is ns.v))]
+        ext = _shape(ns, ns.bw, ns.vv)
+        if ns.trunc:
+            want_len = ns.bw
+            want_den = H.If(ns.bw >= ns.wv, ns.vv, H.mod(ns.vv, H.pow2(ns.bw)))
+        else:
+            want_len = H.If(ns.bw >= ns.wv, ns.bw, ns.wv)
+            want_den = ns.vv
+        return _shape(ns, want_len, want_den)
+
+
+@register
+class MatchBitwidth(WireContract):
+    """match_bitwidth(a, b[, c], signed=...): every result has the maximal length; unsigned results
+    carry the same value, signed results the same two's-complement value."""
+    module, qualname, props = 'pyrtl.corecircuits', 'match_bitwidth', ('C06',)
+    inline_at_calls = True
+
+    def cases(self):
+        return ['2:unsigned', '3:unsigned', '2:signed']
+
+    def setup(self, I, case):
+        n, sg = case.split(':')
+        ws = [W.input_wire(I, 'w%d' % i) for i in range(int(n))]
+        return NS(args=ws, kwargs=dict(signed=True) if sg == 'signed' else {}, signed=(sg == 'signed'),
+                  views=[(W.den_of(w), W.bw_of(w)) for w in ws])
+
+    def post(self, ns):
+        import z3
+        from pyvc.engine import SObj
+        res = ns.result
+        if isinstance(res, (list, tuple)):
+            res = list(res)
+        else:
+            return [('returns one wire per argument', z3.BoolVal(False))]
+        if len(res) != len(ns.views) or not all(isinstance(r, SObj) and r.fields.get('_den') is not None for r in res):
+            return [('returns one driven wire per argument', z3.BoolVal(False))]
+        L = ns.views[0][1]
+        for _, b in ns.views[1:]:
+            L = H.If(b > L, b, L)
+        out = []
+        for i, (r, (d, b)) in enumerate(zip(res, ns.views)):
+            out.append(('result %d has the maximal length' % i, W.bw_of(r) == L))
+            if ns.signed:
+                out.append(('result %d keeps the signed value' % i, sval(W.den_of(r), L) == sval(d, b)))
+            else:
+                out.append(('result %d keeps the value' % i, W.den_of(r) == d))
+        return out
+
+
+@register
+class Mux(WireContract):
+    """mux(index, a0, ..., default=d): the input selected by the index value (missing inputs are the
+    default), zero-extended to the longest input.  Index widths 1..3 (concrete), data widths and values
+    symbolic; the recursion on the top index bit is handled by induction on len(index)."""
+    module, qualname, props = 'pyrtl.corecircuits', 'mux', ('C14',)
+    recursive_ok = True
+
+    def cases(self):
+        return ['1:2:n', '2:4:n', '2:3:d', '2:2:d', '3:8:n', '3:5:d', '3:7:d']
+
+    def setup(self, I, case):
+        import z3
+        iw, n, d = case.split(':')
+        iw, n = int(iw), int(n)
+        idx = W.new_wire(I, iw, z3.Int('idx!%d' % next(I.st.n)), hint='idx')
+        I.st.assume(z3.And(W.den_of(idx) >= 0, W.den_of(idx) < (1 << iw)))
+        ins = [W.input_wire(I, 'd%d' % i) for i in range(n)]
+        kw = {}
+        if d == 'd':
+            kw['default'] = W.input_wire(I, 'dflt')
+        return self.bind(I, None, [idx] + ins, kw)
+
+    def bind(self, I, selfobj, args, kwargs):
+        import z3
+        from pyvc.engine import SObj, Unsupported
+        idx, ins = args[0], list(args[1:])
+        if not isinstance(idx, SObj) or not all(isinstance(x, SObj) for x in ins):
+            raise Unsupported('mux with non-wire operands')
+        iw = z3.simplify(W.bw_of(idx))
+        if z3.is_int_value(iw):
+            iw = iw.as_long()
+        else:
+            # a width that is a fresh variable pinned by the path condition (result of a slice contract)
+            for k in (1, 2, 3, 4):
+                if I.st.prove_now(iw == k):
+                    iw = k
+                    break
+            else:
+                raise Unsupported('mux with a symbolic index width')
+        extra = [k for k in kwargs if k != 'default']
+        if extra:
+            raise Unsupported('mux with predicate keywords')
+        d = kwargs.get('default')
+        if d is not None and not isinstance(d, SObj):
+            raise Unsupported('mux default %r' % (d,))
+        return NS(args=list(args), kwargs=dict(kwargs), iw=iw, vi=W.den_of(idx),
+                  ins=[(W.den_of(x), W.bw_of(x)) for x in ins],
+                  dflt=None if d is None else (W.den_of(d), W.bw_of(d)))
+
+    def measure(self, ns):
+        import z3
+        return z3.IntVal(ns.iw)
+
+    def raises(self, ns):
+        n = len(ns.ins)
+        full = 1 << ns.iw
+        bad = n > full or (n < full and ns.dflt is None) or n == 0
+        return [('PyrtlError', bad)]
+
+    def post(self, ns):
+        full = 1 << ns.iw
+        table = list(ns.ins) + ([ns.dflt] * (full - len(ns.ins)) if ns.dflt is not None else [])
+        L = table[0][1]
+        for _, b in table[1:]:
+            L = H.If(b > L, b, L)
+        den = table[-1][0]
+        for i in reversed(range(len(table) - 1)):
+            den = H.If(ns.vi == i, table[i][0], den)
+        return _shape(ns, L, den)
